@@ -175,7 +175,8 @@ def _avg_loss(p, ex):
 def hyp(case):
   k, depth, sopt = case['clusters'], case['depth'], case['sopt']
   lam = case.get('reg')   # optional regularizer lam/2 * |params|^2: part of the average loss that decides the assignment
-  alg, init = systems.build('hyp_cluster', clusters=k, sopt=sopt, lr_c=0.125, lr_s=0.5, loss='plain', reg=lam)
+  bk = {'backend': case['backend']} if case.get('backend') else {}   # e.g. 'pmap2': clients are re-ordered inside a block
+  alg, init = systems.build('hyp_cluster', clusters=k, sopt=sopt, lr_c=0.125, lr_s=0.5, loss='plain', reg=lam, **bk)
   regv = lambda p: 0.5 * lam * float(sum(np.sum(np.asarray(v, np.float64) ** 2) for v in p.values())) if lam else 0.0
   _, c_ref = algos.make_opt('sgd', 0.125)
   _, s_ref = algos.make_opt(sopt, 0.5)
@@ -400,7 +401,8 @@ def plan(ctx):
   ctx.pmap('apfl', [{'lr': lr, 'coef': c, 'depth': d, 'seed': s} for lr in (0.125, 4.0) for c in (0.0, 0.5, 1.0)
                     if th or c != 0.0], chunk=1)
   ctx.pmap('hyp', [{'clusters': k, 'sopt': so, 'depth': d, 'seed': s} for k in (2, 3) for so in ('sgd', 'mom')] +
-           [{'clusters': 3, 'sopt': 'sgd', 'depth': d, 'seed': s, 'reg': lam} for lam in ((0.5, 2.0) if th else (0.5,))], chunk=1)
+           [{'clusters': 3, 'sopt': 'sgd', 'depth': d, 'seed': s, 'reg': lam} for lam in ((0.5, 2.0) if th else (0.5,))] +
+           [{'clusters': 2, 'sopt': 'mom', 'depth': 2, 'seed': s, 'backend': be} for be in (('pmap2', 'pmap3') if th else ('pmap2',))], chunk=1)
   # clip 0.0 / 0: a legal bound (every aggregated update is the zero vector), falsy in Python
   ctx.pmap('mimelite', [{'clip': c, 'base': b, 'depth': d, 'seed': s} for c in (0.125, 1.0, 1e6) for b in ('sgd', 'mom')] +
            [{'clip': c, 'base': 'sgd', 'depth': min(d, 2), 'seed': s} for c in (0.0, 0)], chunk=1)
